@@ -315,7 +315,7 @@ def generate(path, mod, isa_path, ea_field="f_StepInfo_EA"):
     out.append("\n".join(lines))
     out.append(LEN_AGREES % {"mod": mod})
     out.append(INSTANCE % {"mod": mod})
-    out.append("Print Assumptions C07_contract_%s.\nPrint Assumptions C07_len_%s.\nPrint Assumptions c_br_contract.\nPrint Assumptions C07_moves_%s.\nPrint Assumptions C07_partial_%s.\nPrint Assumptions C07_partial_patched_%s.\n" % (mod, mod, mod, mod, mod))
+    out.append("Print Assumptions C07_contract_%s.\nPrint Assumptions C07_len_%s.\nPrint Assumptions c_br_contract.\nPrint Assumptions C07_moves_%s.\nPrint Assumptions C07_moves_dedup_%s.\nPrint Assumptions C07_partial_%s.\nPrint Assumptions C07_partial_patched_%s.\n" % (mod, mod, mod, mod, mod, mod))
     files["C07_%s" % mod] = "\n".join(out)
     return files, {"lemmas": lemmas, "straight": straight, "proved": proved, "unproved": unproved, "skipped": skipped,
                    "needed": sorted(needed), "modes": modes, "br_ops": br_ops, "br_unproved": br_unproved,
@@ -946,4 +946,19 @@ Theorem C07_moves_%(mod)s : forall ops e0 b s0 N,
   nottaken st c_step c_pc c_rk mem c_fn c_fv c_fc c_fz c_adm N s0 ->
   walk st c_step c_ok c_pc c_rk c_m c_x ops e0 ef bank N s0.
 Proof. exact (C07_couple_moves st c_step c_ok c_pc c_rk c_m c_x mem wrote c_fn c_fv c_fc c_fz c_adm c_ranges c_contract (c_br_contract c_adm) (c_mv_contract c_adm)). Qed.
+
+(* ... in the form: the fetch addresses with consecutive duplicates removed are the instruction starts *)
+Theorem C07_moves_dedup_%(mod)s : forall ops e0 b s0 N,
+  straightline c_adm ops e0 -> buf e0 = Some b -> 0 <= n e0 <= ZList.zlen b ->
+  let ef := fst (run ops e0) in
+  let bank := address e0 / 65536 in
+  0 <= address e0 < 16777216 ->
+  address e0 + (n ef - n e0) <= (bank + 1) * 65536 ->
+  (forall i, 0 <= i < n ef - n e0 -> hole ops e0 (n e0 + i) = false -> mem s0 (address e0 + i) = ZList.znth (Bytes ef) (n e0 + i)) ->
+  c_ok s0 -> addr24 (c_rk s0) (c_pc s0) = address e0 -> c_m s0 = mbit e0 -> c_x s0 = xbit e0 ->
+  nowrite st c_step wrote N s0 (address e0) (address e0 + (n ef - n e0)) ->
+  nottaken st c_step c_pc c_rk mem c_fn c_fv c_fc c_fz c_adm N s0 ->
+  exists k j l sf, (k <= N)%%nat /\\ fetches st c_step c_pc c_rk k s0 = Some (l, sf) /\\ dedup l = firstn j (starts ops e0) /\\
+    ((dedup l = starts ops e0 /\\ c_m sf = mbit ef /\\ c_x sf = xbit ef /\\ c_pc sf = address ef mod 65536 /\\ c_rk sf = bank) \\/ k = N).
+Proof. exact (C07_couple_moves_dedup st c_step c_ok c_pc c_rk c_m c_x mem wrote c_fn c_fv c_fc c_fz c_adm c_ranges c_contract (c_br_contract c_adm) (c_mv_contract c_adm)). Qed.
 """
